@@ -95,8 +95,8 @@ def numLt : AVal → AVal → Bool
 
 def numLe (a b : AVal) : Bool := numLt a b || a == b
 
-def plus2 : AVal → AVal
-  | .int i => .int (i + 2)
+def plusN (n : Nat) : AVal → AVal
+  | .int i => .int (i + n)
   | v => v
 
 /-- the checks that raise; `none` = passes -/
@@ -125,11 +125,11 @@ def numberKw (F : Facts15) (h : Heap) (srcAttrs : Nat) (kw : Kw) : Kw :=
   match F.mslRule with
   | .resetsFromParent =>
     -- `kwargs['max_str_len'] = cls.Attributes.total_digits + 2`
-    odictSet kw "max_str_len" (plus2 ((attrAt h srcAttrs "total_digits").getD .none))
+    odictSet kw "max_str_len" (plusN F.mslExtra ((attrAt h srcAttrs "total_digits").getD .none))
   | .followsRequested =>
     let kw' := odictErase kw "max_str_len"
     match kwLookup kw "total_digits" with
-    | some td => if td != .none then kw' ++ [("max_str_len", plus2 td)] else kw'
+    | some td => if td != .none then kw' ++ [("max_str_len", plusN F.mslExtra td)] else kw'
     | none => kw'
 
 /-! ## `is_default` -/
@@ -163,6 +163,23 @@ def liftExcept {α : Type} (x : Except String α) : M α :=
   | .error e => fail e
 
 def whenM (b : Bool) (m : M Unit) : M Unit := if b then m else pure ()
+
+/-- `_s_customize` with `prot=p`: the keywords are merged into (a copy of) the protocol's non-empty `type_attrs`
+    (`type_attrs.update(kwargs)`) and the loop runs over the result.  (The model merges before the class-specific
+    pre-processing; the generated `type_attrs` only hold plain attribute names, for which that is the same.) -/
+def protMerge (F : Facts15) (prot : Option Nat) (kw : Kw) : M Kw :=
+  match prot with
+  | none => pure kw
+  | some p => do
+    let h ← getHeap
+    match h.prots[p]? with
+    | none => fail "KeyError"
+    | some ta =>
+      if ta.isEmpty then pure kw
+      else do
+        whenM (F.protCopy == .shared) (updProt p (applyCol ta kw))
+        pure (applyCol ta kw)
+
 
 /-! ## `SimpleModel.customize` (spyne/model/_base.py:888-906) -/
 
